@@ -104,6 +104,8 @@ type Result struct {
 	Kept    []string // new functions whose calls could not all be inlined, with the reason
 	New     []string // functions not in the baseline
 	Undone  []string // function<->method conversions undone
+	// newer spellings rewritten into the pinned tree's (wg.Go)
+	Normalized []string
 }
 
 type callee struct {
@@ -113,6 +115,11 @@ type callee struct {
 	pkg    *packages.Package
 	reason string // non-empty: not inlinable
 	sites  int    // calls inlined
+	// local closures (v := func(..) {..}, only ever called): the literal, the
+	// defining statement and the number of calls
+	lit  *ast.FuncLit
+	def  *ast.AssignStmt
+	uses int
 }
 
 type inliner struct {
@@ -125,17 +132,24 @@ type inliner struct {
 	origOf  map[*ast.Ident]*ast.Ident
 	// package-name identifiers inside generated type expressions -> import path
 	pkgIdent map[*ast.Ident]string
+	// local closure variables that are new relative to the pinned tree
+	closures map[*types.Var]*callee
+	nfresh   int
 }
 
 // Transform inlines calls of non-baseline functions in the given (module)
 // packages. It never fails: anything unexpected leaves the code as it is.
 func Transform(pkgs []*packages.Package, excluded func(filename string) bool) *Result {
-	in := &inliner{res: &Result{Overlay: map[string][]byte{}}, callees: map[*types.Func]*callee{}, dirty: map[*ast.File]bool{}, state: map[*types.Func]int{}, origOf: map[*ast.Ident]*ast.Ident{}, pkgIdent: map[*ast.Ident]string{}}
+	in := &inliner{res: &Result{Overlay: map[string][]byte{}}, callees: map[*types.Func]*callee{}, dirty: map[*ast.File]bool{}, state: map[*types.Func]int{}, origOf: map[*ast.Ident]*ast.Ident{}, pkgIdent: map[*ast.Ident]string{}, closures: map[*types.Var]*callee{}}
 	if len(pkgs) == 0 {
 		return in.res
 	}
 	in.fset = pkgs[0].Fset
 	in.deconvert(pkgs, excluded)
+	in.normalizeWaitGroupGo(pkgs, excluded)
+	in.normalizeRangeInt(pkgs, excluded)
+	in.normalizeLibraryLoops(pkgs, excluded)
+	in.findClosures(pkgs, excluded)
 	for _, pk := range pkgs {
 		for _, f := range pk.Syntax {
 			fname := in.fset.Position(f.Pos()).Filename
@@ -163,7 +177,7 @@ func Transform(pkgs []*packages.Package, excluded func(filename string) bool) *R
 		}
 	}
 	sort.Strings(in.res.New)
-	if len(in.callees) == 0 && len(in.dirty) == 0 {
+	if len(in.callees) == 0 && len(in.dirty) == 0 && len(in.closures) == 0 {
 		return in.res
 	}
 	// rewrite every function body of the packages that have new functions;
@@ -175,6 +189,11 @@ func Transform(pkgs []*packages.Package, excluded func(filename string) bool) *R
 	for _, pk := range pkgs {
 		hasNew := false
 		for _, c := range in.callees {
+			if c.pkg == pk {
+				hasNew = true
+			}
+		}
+		for _, c := range in.closures {
 			if c.pkg == pk {
 				hasNew = true
 			}
@@ -257,6 +276,11 @@ func Transform(pkgs []*packages.Package, excluded func(filename string) bool) *R
 		in.res.Overlay[in.fset.Position(f.Pos()).Filename] = buf.Bytes()
 	}
 	for _, c := range in.callees {
+		if c.reason != "" {
+			in.res.Kept = append(in.res.Kept, FuncName(c.pkg.PkgPath, c.decl)+": "+c.reason)
+		}
+	}
+	for _, c := range in.closures {
 		if c.reason != "" {
 			in.res.Kept = append(in.res.Kept, FuncName(c.pkg.PkgPath, c.decl)+": "+c.reason)
 		}
@@ -376,6 +400,11 @@ func (in *inliner) calleeOf(pk *packages.Package, call *ast.CallExpr) *site {
 		}
 		if c := in.callees[obj]; c != nil && c.pkg == pk {
 			return &site{call: call, c: c}
+		}
+		if v, _ := pk.TypesInfo.Uses[fun].(*types.Var); v != nil {
+			if c := in.closures[v]; c != nil && c.pkg == pk {
+				return &site{call: call, c: c}
+			}
 		}
 	case *ast.SelectorExpr:
 		obj, _ := pk.TypesInfo.Uses[fun.Sel].(*types.Func)
@@ -501,6 +530,7 @@ func (in *inliner) rewriteBody(pk *packages.Package, file *ast.File, body *ast.B
 		return out
 	}
 	body.List = walkList(body.List)
+	in.dropClosureDefs(body)
 }
 
 // tryInline returns the statements replacing s, or nil.
@@ -700,7 +730,11 @@ func (in *inliner) expand(pk *packages.Package, file *ast.File, st *site, ownerD
 		case *types.PkgName:
 			pkgNames[id] = o.Imported().Path()
 		default:
-			if obj.Parent() == c.pkg.Types.Scope() || obj.Parent() == types.Universe {
+			// a closure's captured locals must be the same variables at the
+			// call site
+			captured := c.lit != nil && obj.Pkg() == c.pkg.Types && obj.Parent() != nil && obj.Parent() != c.pkg.Types.Scope() &&
+				(obj.Pos() < c.lit.Pos() || obj.Pos() >= c.lit.End())
+			if obj.Parent() == c.pkg.Types.Scope() || obj.Parent() == types.Universe || captured {
 				if callScope != nil {
 					if _, found := callScope.LookupParent(id.Name, st.call.Pos()); found != obj {
 						bad = "identifier " + id.Name + " is shadowed at the call site"
